@@ -68,6 +68,10 @@ def run():
         ("it := <{|i| j := i * 2; yield {|| j} if i < 3; recur(i+1)}>.new(0); [it.next, it.next]@{|f| f()}", "val:[0, 2]"),
         ("fs := <{|i| yield {|| i} if i < 4; recur(i+1)}>.new(1)@{|f| f}; fs@{|f| f()}", "val:[1, 2, 3]"),
         ("it := <{|i| yield {|d| i := i + d; i} if i < 9; recur(i+1)}>.new(0); f := it.next; [f(5), f(5), it.next()(0)]", "val:[5, 5, 1]"),
+        # parameters, keywords and locals named like the three "literal" names
+        ("{|nil| nil}(3)", "val:3"), ("{|true, false| [true, false]}(1, 2)", "val:[1, 2]"), ("{|| false := 'local; false}()", 'val:"local"'), ("{|x, nil: 7| [x, nil]}(1)", "val:[1, 7]"),
+        ("{|x, true: 7| [x, true, \\true]}(1, true: 8)", "val:[1, 8, 8]"), ("f := {|nil| {|| nil}}; f(5)()", "val:5"), ("o := {m: m{|false| [self.k, false]}, k: 1}; o.m(9)", "val:[1, 9]"),
+        ("[1, 2]@{|nil| nil * 2}", "val:[2, 4]"), ("{|a| nil := a + 1; [nil, nil == 3]}(2)", "val:[3, true]"),
     ]
     iout = run_cases([{"id": f"s{k}", "src": src} for k, (src, _) in enumerate(iter_scopes)], label="C03 iterator bodies")
     for k, (src, want) in enumerate(iter_scopes):
